@@ -1,4 +1,5 @@
 import Rp2.Proofs.Final
+import Rp2.Proofs.PipelineEngine
 import Rp2.Gen.Methods
 /-!
 # C01 — disposals consume lots in the order the accounting method prescribes
@@ -29,6 +30,34 @@ theorem best_lot (acqs : List Acq) (meth : Nat → Method) (es : List Event) (ou
         ∀ j, j < (sortedLots acqs).length → ((mkCtx acqs meth).L j).ts ≤ e.ts → taken pre j < ((mkCtx acqs meth).L j).amount →
           ¬ better (meth e.slot) ((mkCtx acqs meth).L j) ((mkCtx acqs meth).L i) :=
   (engine_C01_C02 acqs meth es out hrows hev hpos hrun).2.2.2
+
+/-- the same for `computeFractions` — the executable pipeline function that `compute`, the compiled drivers and every
+    correspondence stream run — on a table in sheet order (`SheetOrder`: what the parser produces, `C11.ids_are_row_numbers`)
+    and under `SameInstantSameYear` (finding F7): its output is the decoding of an engine run `out` in which every piece is
+    taken from the lot the method of the event's year ranks first among the lots acquired at or before the event that still
+    have balance given everything consumed before it (4th conjunct; the first three are C02's) -/
+theorem pipeline_best_lot (sched : List (Int × Method)) (ins : List InTx) (outs : List OutTx) (intras : List IntraTx) (fs : List Fraction)
+    (hord : SheetOrder ins) (hy : SameInstantSameYear (taxableEvents ins outs intras))
+    (h : computeFractions sched ins outs intras = .ok fs) :
+    ∃ es out, engineEvents sched (taxableEvents ins outs intras) = some es ∧
+      fs = decodeFracs (sortByTs (·.ts.us) ins) (taxableEvents ins outs intras) out ∧
+      (∀ i, taken out i ≤ ((lotCtx sched (sortByTs (·.ts.us) ins)).L i).amount) ∧
+      (∀ j e, es[j]? = some e → total (out.filter (fun f => f.ev = j)) = e.amount) ∧
+      (∀ f ∈ out, ∃ e, es[f.ev]? = some e ∧ (e.earn → f = ⟨f.ev, none, e.amount⟩) ∧
+          (¬ e.earn → 0 < f.amt ∧ ∃ i, f.lot = some i ∧ i < (sortByTs (·.ts.us) ins).length ∧
+            ((lotCtx sched (sortByTs (·.ts.us) ins)).L i).ts ≤ e.ts)) ∧
+      (∀ pre f post i, out = pre ++ f :: post → f.lot = some i →
+          ∃ e, es[f.ev]? = some e ∧ ((lotCtx sched (sortByTs (·.ts.us) ins)).L i).ts ≤ e.ts ∧
+            taken pre i < ((lotCtx sched (sortByTs (·.ts.us) ins)).L i).amount ∧
+            ∀ j, j < (sortByTs (·.ts.us) ins).length → ((lotCtx sched (sortByTs (·.ts.us) ins)).L j).ts ≤ e.ts →
+              taken pre j < ((lotCtx sched (sortByTs (·.ts.us) ins)).L j).amount →
+              ¬ better ((lotCtx sched (sortByTs (·.ts.us) ins)).meth e.slot) ((lotCtx sched (sortByTs (·.ts.us) ins)).L j)
+                  ((lotCtx sched (sortByTs (·.ts.us) ins)).L i)) :=
+  computeFractions_sound sched ins outs intras fs hord hy h
+
+/-- the time-sorted lot list is ordered by (instant, sheet row): `list.sort(key=timestamp)` is stable -/
+theorem lots_sorted_by_instant_then_row (ins : List InTx) (h : SheetOrder ins) :
+    (sortByTs (·.ts.us) ins).Pairwise (fun a b => a.ts.us < b.ts.us ∨ (a.ts.us = b.ts.us ∧ a.row < b.row)) := sortedIns_lex ins h
 
 /-- non-vacuity: a concrete history meets the hypotheses (two lots, an income event, two disposals at one instant) -/
 example : EvOK none [⟨10, 0, 2, true⟩, ⟨20, 0, 3, false⟩, ⟨20, 0, 1, false⟩] := by
